@@ -74,6 +74,7 @@ fn main() {
         "c16" => cli::c16_cases(&mut rng, &tier, &mut out),
         "c02" => repair::c02_cases(&mut rng, &tier, &mut out),
         "c05" => repair::c05_cases(&mut rng, &tier, &mut out),
+        "c05-blocks" => repair::c05_blocks_cases(&mut rng, &tier, &mut out),
         "c03" => integrity::c03_cases(&mut rng, &tier, &mut out),
         "c04" => integrity::c04_cases(&mut rng, &tier, &mut out),
         "c07" => confid::c07_cases(&mut rng, &tier, &mut out),
@@ -88,6 +89,7 @@ fn main() {
         "c15" => mem::c15_cases(&mut rng, &tier, &mut out),
         "c10" => history::c10_cases(&mut rng, &tier, &mut out),
         "c12" => history::c12_cases(&mut rng, &tier, &mut out),
+        "c12-cli" => cli::c12_cli_cases(&mut rng, &tier, &mut out),
         "c13" => history::c13_cases(&mut rng, &tier, &mut out),
         "c14" => history::c14_cases(&mut rng, &tier, &mut out),
         #[cfg(feature = "scaled")]
